@@ -595,7 +595,7 @@ theorem C11_morph_guards_imply_pre (env : Env) :
 
 /-- **C11+C10 (erode / dilate), links extracted.** For an ndarray `A` with at least one element per axis: with the
 extracted links of `morph.erode` → `_morph.erode` (the links of `morph.dilate` → `_morph.dilate` are the same list: second
-conjunct) — `array` is `A` itself, `Bc` comes from `get_structuring_elem(A, Bc)` (the rank of `A`, at least one element:
+conjunct) — `array` is `A` or, since be1beaf (`out=` sharing memory with `A`), a copy of it: the link is `norm A`, same rank and shape —, `Bc` comes from `get_structuring_elem(A, Bc)` (the rank of `A`, at least one element:
 NON-EMPTY), `output` from `_get_output(A, out)` — the structuring element has the rank of the array and no zero-length
 axis, the output has the shape of the array, and for every border mode the offset table of the filter iterator (C10 B1)
 holds only the flag or indices inside the array. -/
@@ -611,10 +611,10 @@ theorem C11_erode_dilate_safe (envW envN : Env) (m : Mode)
   simp [Linked, Generated.links_morph_erode__morph_erode, Link.holds, isArr, hA] at hl
   obtain ⟨ha, ⟨⟨⟨-, hbn⟩, hbw⟩, hbs⟩, ⟨-, hos⟩, -⟩ := hl
   unfold Desc.wf at wfA
-  have hlen : (envN "Bc").shape.length = (envN "array").shape.length := by rw [ha]; omega
+  have hlen : (envN "Bc").shape.length = (envN "array").shape.length := by rw [ha.2]; omega
   have hbpos := all_pos_of_shapeSize_ne_zero (envN "Bc").shape (by unfold Desc.size at hbs; omega)
-  have := C10_filter_table_ok m (envN "array").shape (envN "Bc").shape (by rw [ha]; exact hpos) hlen
-  exact ⟨by decide, hlen, hbpos, by rw [hos, ha], this.1, this.2⟩
+  have := C10_filter_table_ok m (envN "array").shape (envN "Bc").shape (by rw [ha.2]; exact hpos) hlen
+  exact ⟨by decide, hlen, hbpos, by rw [hos, ha.2], this.1, this.2⟩
 
 /-- **C11-T1 (label).** Native `py_label`: `array` (labeled in place) is an int32 C array and `filter` has its element
 type. With the extracted links of `labeled.label` → `_labeled.label` on an ndarray `array`: what is labeled is the output
@@ -879,7 +879,7 @@ example :
                 if n = "target" then { kind := 1, ndim := 1, shape := [4], tnum := 2, flags := 7 } else
                 if n = "output" then { kind := 1, ndim := 2, shape := [3, 4], tnum := 0, flags := 7 } else {}) = some 1 := by
   decide
-example : Generated.argLinkTable.length = 63 ∧ Generated.checkFlowTable.length = 6 := by decide
+example : Generated.argLinkTable.length = 64 ∧ Generated.checkFlowTable.length = 6 := by decide
 
 /-! ### round 3, composed with the C10 theorems of round 3 (histogram, lbp map) -/
 
